@@ -542,6 +542,8 @@ def list_extend(ex, cur: Val, rhs: Val, node):
 
 
 def set_item(ex, st, recv: Val, idx: Val, v: Val, node) -> Val:
+    recv = ex.deopt(recv, st, node)
+    idx = ex.deopt(idx, st, node)
     if recv.is_py and isinstance(recv.py, dict) and is_const(idx):
         d = dict(recv.py)
         d[idx.py] = v.py if is_const(v) else v
@@ -571,6 +573,8 @@ def set_item(ex, st, recv: Val, idx: Val, v: Val, node) -> Val:
 
 
 def del_item(ex, st, recv: Val, idx: Val, node) -> Val:
+    recv = ex.deopt(recv, st, node)
+    idx = ex.deopt(idx, st, node)
     t = recv.ty
     if recv.is_py and isinstance(recv.py, dict) and is_const(idx):
         d = dict(recv.py)
@@ -601,6 +605,9 @@ def mutate(ex, st, recv: Val, name, args, kwargs, node):
     """In-place container method: returns (new receiver value, call result)."""
     args = [materialize(ex, a) for a in args]
     none = Val.const(None)
+    recv = ex.deopt(recv, st, node)
+    if name in ("setdefault", "pop", "remove", "discard", "add") and args and isinstance(recv.ty, (T.Dict, T.Set)):
+        args = [ex.deopt(args[0], st, node)] + list(args[1:])
     t = recv.ty
     if recv.is_py and isinstance(recv.py, list):
         l = list(recv.py)
